@@ -114,6 +114,12 @@ def run(ctx):
             c.ob("R7", kinds == ["Continue"], isd, "history-child-skipped-with-continue", "a history child is skipped and the remaining regions are still examined" if kinds == ["Continue"] else
                  f"the history-child test leaves the region loop with {kinds or 'nothing'} instead of 'continue': the regions declared after a history child are not "
                  f"examined, so the parallel state completes while one of them is not final (or is reported not done forever)", t)
+        # a region is done as soon as ONE of its active states is (the region node itself is never 'done' on its own)
+        aggs = [y for st_ in l.body for y in ast.walk(st_) if isinstance(y, ast.Call) and isinstance(y.func, ast.Name) and y.func.id in ("any", "all") and "_is_state_done" in norm(y)]
+        okagg = bool(aggs) and all(y.func.id == "any" for y in aggs)
+        c.ob("R7", okagg, isd, "region-done-if-any-active-state-is", "a region counts as done when some active state in it is done" if okagg else
+             "the region test is no longer 'any active state of the region is done' (it uses all(...)): the region node and the ancestors of the final child are active too "
+             "and never done by themselves, so a parallel state never completes", (aggs or [l])[0])
         g_ = cfg_of(isd.node)
         after = [n for n in g_.nodes if n.kind == "stmt" and isinstance(n.ast, ast.Return) and n.ast not in rets and
                  any(g_.can_reach(h, n.id, follow_exc=False) for h in g_.nodes_of(l)) and
